@@ -337,7 +337,7 @@ def family(fam, tier):
         # many vertices (33 / 129 / 1025: beyond any plausible 'small geometry' threshold), first <= last in time but the earliest and
         # the latest vertex in the interior; dense outlines of a rectangle (collinear vertices) for the polygonal types
         for n in (33, 129, 1025):
-            zig = [[3.0, 1000.0]] + [[3.0 + ((i * 37) % 64 - 29) / 8.0, float((i * 97) % 4001)] for i in range(1, n - 1)] + [[5.0, 2000.0]]
+            zig = [[3.0, 1000.0]] + [[3.0 + ((i * 37) % 64 - 23) / 8.0, float((i * 97) % 4001)] for i in range(1, n - 1)] + [[5.0, 2000.0]]
             yield "LineString", zig
             yield "MultiPoint", zig
             yield "MultiLineString", [zig, [[0.0, 0.0], [1.0, 125.0]]]
